@@ -249,14 +249,71 @@ func runCrashPoint(it CrashItem, p int, res *CrashResult, dir string) {
 	if !created {
 		viol("no-new-self-event", fmt.Sprintf("the restarted node created no self-event with index %d during the continuation", lastSelfIdx+1))
 	}
+	// 5. a second stop + bootstrap (clean shutdown this time): what the restarted node did in
+	// between (events inserted, blocks delivered, head) must be in its database as well
+	if !x.Dead() && !x.C.Nodes[0].Down {
+		n1 := x.C.Nodes[0]
+		knownBefore := fmt.Sprint(sortedKnown(n1.Store.KnownEvents()))
+		commitsBefore := append([]sim.CommitRec{}, n1.App.Commits...)
+		csb := n1.Node.VCoreState()
+		if err := x.C.Restart(0, true, false); err != nil {
+			viol("second-restart-failed", err.Error())
+		} else {
+			n2 := x.C.Nodes[0]
+			res.Ctr["second_restarts"]++
+			if k := fmt.Sprint(sortedKnown(n2.Store.KnownEvents())); k != knownBefore {
+				viol("second-restart-events-lost", fmt.Sprintf("after a clean stop and a second bootstrap the node knows %s, before the stop it knew %s", k, knownBefore))
+			}
+			if len(n2.App.Commits) < len(commitsBefore) {
+				viol("second-restart-blocks-not-redelivered", fmt.Sprintf("%d blocks delivered before the second stop, %d re-delivered", len(commitsBefore), len(n2.App.Commits)))
+			}
+			for k := 0; k < len(commitsBefore) && k < len(n2.App.Commits); k++ {
+				a, _ := json.Marshal(commitsBefore[k].Body)
+				b, _ := json.Marshal(n2.App.Commits[k].Body)
+				if string(a) != string(b) || string(commitsBefore[k].StateHash) != string(n2.App.Commits[k].StateHash) {
+					viol("second-restart-block-differs", fmt.Sprintf("block %d re-delivered by the second bootstrap differs", k))
+					break
+				}
+			}
+			cs2 := n2.Node.VCoreState()
+			if cs2.Head != csb.Head || cs2.Seq != csb.Seq {
+				viol("second-restart-head-not-restored", fmt.Sprintf("head/seq %s/%d before the second stop, %s/%d after the second bootstrap", short10(csb.Head), csb.Seq, short10(cs2.Head), cs2.Seq))
+			}
+			x.Step(sched.Action{K: "T", A: 0})
+			if sr := x.FairSuffix(40); !sr.Quiescent {
+				viol("second-continuation-not-quiescent", "after the second restart the cluster did not become quiescent: "+sr.Reason)
+			}
+			byIdx := map[int]string{}
+			for _, hx := range x.C.EvOrder {
+				r := x.C.Events[hx]
+				if r.CreatorIdx != 0 {
+					continue
+				}
+				if o, dup := byIdx[r.Index]; dup && o != hx {
+					viol("self-fork-after-second-restart", fmt.Sprintf("two events of the twice restarted node at height %d", r.Index))
+					break
+				}
+				byIdx[r.Index] = hx
+			}
+		}
+	}
 	for _, v := range x.Viol {
 		if v.Property == "C01" || v.Property == "C02" || v.Property == "*" {
 			viol("continuation-"+v.Property+"-"+v.Key, v.What)
 		}
 	}
 	if len(res.Sample) == 0 {
-		res.Sample = []string{fmt.Sprintf("crash before write %d of node 0 (%d events written, %d blocks delivered), restart with bootstrap, T(0), %d fair cycles", p, len(written), len(oldCommits), sr.Cycles)}
+		res.Sample = []string{fmt.Sprintf("crash before write %d of node 0 (%d events written, %d blocks delivered), restart with bootstrap, T(0), %d fair cycles, clean stop, second bootstrap, T(0), fair cycles", p, len(written), len(oldCommits), sr.Cycles)}
 	}
+}
+
+func sortedKnown(m map[uint32]int) []string {
+	var out []string
+	for k, v := range m {
+		out = append(out, fmt.Sprintf("%d=%d", k, v))
+	}
+	sort.Strings(out)
+	return out
 }
 
 func short10(s string) string {
@@ -454,7 +511,7 @@ func init() {
 			samples = append(samples, s)
 		}
 		cov["samples"] = samples
-		cov["rule"] = "node 0 runs on a BadgerStore behind a wrapper counting its durable store writes (SetEvent/SetRound/SetBlock/SetFrame/SetPeerSet); for every write index p of the stated histories (static seed: every p; dynamic seeds: the stated stride) the node is cut before write p (all in-memory objects abandoned), its directory reopened by a fresh Node with Bootstrap=true through the real Init -> Hashgraph.Bootstrap -> setHeadAndSeq with a reset application, plus a clean close after the whole seed. Oracle: every block delivered before the cut is re-delivered identically and in order; the node knows exactly the events whose SetEvent had returned; head/seq = last persisted self-event; after a fair continuation its next self-event has index seq+1, is accepted by all, no two events of it share a height, and the C01/C02 monitors stay green. Crash-model validation: the same history in a child process that SIGKILLs itself at write p; the state recovered from its directory must equal the one recovered after the in-process cut. distinct_nontrivial = distinct recovered states"
+		cov["rule"] = "node 0 runs on a BadgerStore behind a wrapper counting its durable store writes (SetEvent/SetRound/SetBlock/SetFrame/SetPeerSet); for every write index p of the stated histories (static seed: every p; dynamic seeds: the stated stride) the node is cut before write p (all in-memory objects abandoned), its directory reopened by a fresh Node with Bootstrap=true through the real Init -> Hashgraph.Bootstrap -> setHeadAndSeq with a reset application, plus a clean close after the whole seed. Oracle: every block delivered before the cut is re-delivered identically and in order; the node knows exactly the events whose SetEvent had returned; head/seq = last persisted self-event; after a fair continuation its next self-event has index seq+1, is accepted by all, no two events of it share a height, and the C01/C02 monitors stay green; then the node is stopped cleanly and bootstrapped a second time and must know everything it knew before that stop (events, delivered blocks, head), continue without a self-fork. Crash-model validation: the same history in a child process that SIGKILLs itself at write p; the state recovered from its directory must equal the one recovered after the in-process cut. distinct_nontrivial = distinct recovered states"
 		rep.Assumptions = []string{"a crash is modelled as the prefix of committed Badger transactions (validated by the SIGKILL pass); OS/power failure with SyncWrites=false is outside", "multi-transaction store calls (SetPeerSet, Reset) are cut at their boundaries only"}
 		if tot.Ctr["points_with_blocks_before_crash"] < 5 && len(tot.Viol) == 0 {
 			rep.Finish()
